@@ -16,7 +16,7 @@ def fresh_id() -> int:
 
 
 class State:
-    __slots__ = ("pc", "heap", "envs", "log", "created", "known", "ctor", "undet")
+    __slots__ = ("pc", "heap", "envs", "log", "created", "known", "ctor", "undet", "memo")
 
     def __init__(self):
         self.pc: list = []  # path condition (z3 Bool terms)
@@ -25,6 +25,7 @@ class State:
         self.log: list = []  # ghost event log (calls to uninterpreted functions, prints ...)
         self.created: list = []  # fresh z3 constants created on this path (for loop summaries)
         self.known: dict = {}  # z3 ast id -> bool: conditions already decided on this path
+        self.memo: dict = {}  # functools.cache ghost maps: qualname -> ((args...), result) entries
         self.undet: list = []  # fresh constants whose value is NOT determined by the path facts (havoc)
         self.ctor: dict = {}  # z3 ast id of an AST term -> (term, constructor name) known on this path
 
@@ -38,6 +39,7 @@ class State:
         s.known = dict(self.known)
         s.ctor = dict(self.ctor)
         s.undet = list(self.undet)
+        s.memo = {k: list(v) for k, v in self.memo.items()}
         return s
 
     note = None  # set by Exec: callback(state, fact) recording constructor knowledge
